@@ -199,8 +199,8 @@ macro_rules! ef_cursor_step {
                 let canon = ef.cursor_from(idx1);
                 assert!(c.verif_state() == canon.verif_state());
             }
-            kani::cover!(idx1 < $n && idx1 != idx0);
-            kani::cover!(idx1 == $n && idx0 < $n);
+            kani::cover!($op == 0 || (idx1 < $n && idx1 != idx0));
+            kani::cover!($op == 0 || (idx1 == $n && idx0 < $n));
             core::mem::forget(ef);
         }
     };
